@@ -17,6 +17,8 @@
 mod heapsnap;
 #[path = "c05/shapes.rs"]
 mod shapes;
+#[path = "c05/handles.rs"]
+mod handles;
 
 use gluon::vm::api::{Hole, OpaqueValue};
 use gluon::vm::gc::verif::{COLLECTIONS, STRESS_INTERVAL};
@@ -875,6 +877,7 @@ fn main() {
         match a[2].as_str() {
             "graph" => gv::child::serve(graph_scenario),
             "trans" => trans_child(a[3].parse().unwrap()),
+            "handles" => handles::child(),
             _ => {}
         }
         return;
@@ -887,6 +890,8 @@ fn main() {
         if let Some(sc) = case.get("scenario") {
             let r = gv::child::batch(&["--child", "graph"], &[sc.to_string()], 1, Duration::from_secs(120));
             println!("scenario {} =>\n{:?}", sc, r[0]);
+        } else if let Some(job) = case.get("handles") {
+            handles::replay(job);
         } else if let Some(job) = case.get("job") {
             for k in [0u64, case["k"].as_u64().unwrap_or(1)] {
                 let ka = k.to_string();
@@ -897,7 +902,17 @@ fn main() {
         out.finish();
         return;
     }
-    graph(&args, &mut out);
-    transparency(&args, &mut out);
+    // C05_ONLY=handles|graph|trans: development aid (one stream only)
+    let only = std::env::var("C05_ONLY").ok();
+    let want = |s: &str| only.as_deref().map(|o| o == s).unwrap_or(true);
+    if want("handles") {
+        handles::stream(&args, &mut out);
+    }
+    if want("graph") {
+        graph(&args, &mut out);
+    }
+    if want("trans") {
+        transparency(&args, &mut out);
+    }
     out.finish();
 }
